@@ -214,7 +214,10 @@ class SelectorMap:
     for i, component in enumerate(reversed(selector_components)):
       if len(node) == 1:
         if start is None:
-          start = -i  # Negative index, since we're iterating in reverse.
+          # Negative index, since we're iterating in reverse. The innermost
+          # component is always part of the selector (and `-0` would select
+          # every component instead of none).
+          start = -max(i, 1)
       else:
         start = None
       node = node[component]
